@@ -25,7 +25,7 @@
 #include <time.h>
 
 enum { F_BACKGROUND, F_FOREGROUND, F_MULTI_SENDER, F_LONG_MESSAGE, F_FILTERED_CALLS, F_LEVEL_CHANGE, F_EMPTY_MESSAGE, F_SHUTDOWN_WITH_BACKLOG,
-       F_TRUNCATED_NOALLOC, F_TRUNCATED_DIRECT, F_EXACT_FIT, F_LEVEL_NONE, F_DEEP_BACKLOG, F_WRITER_ERRORS };
+       F_TRUNCATED_NOALLOC, F_TRUNCATED_DIRECT, F_EXACT_FIT, F_LEVEL_NONE, F_DEEP_BACKLOG, F_WRITER_ERRORS, F_LONG_SUBJECT };
 
 /* ================================================================== recording writer */
 #define MAX_REC 4096
@@ -99,10 +99,35 @@ static struct aws_log_writer_vtable s_writer_vtable = {.write = writer_write, .c
 #define MAX_SENDERS 8
 #define MAX_MSGS 400
 
-static const aws_log_subject_t SUBJECTS[] = {AWS_LS_COMMON_GENERAL, AWS_LS_COMMON_TASK_SCHEDULER, AWS_LS_COMMON_THREAD, AWS_LS_COMMON_MEMTRACE,
-                                             AWS_LS_COMMON_XML_PARSER, AWS_LS_COMMON_IO, AWS_LS_COMMON_BUS, AWS_LS_COMMON_TEST, AWS_LS_COMMON_JSON_PARSER,
-                                             AWS_LS_COMMON_CBOR};
-#define N_SUBJECTS (sizeof(SUBJECTS) / sizeof(SUBJECTS[0]))
+/* the library's own subjects plus subjects registered by the harness (package slot 30) whose names have 1..300
+ * characters: the line prefix has no fixed size */
+#define N_LIB_SUBJECTS 10
+#define N_OWN_SUBJECTS 14
+#define N_SUBJECTS (N_LIB_SUBJECTS + N_OWN_SUBJECTS)
+#define OWN_PACKAGE_ID 30
+static aws_log_subject_t SUBJECTS[N_SUBJECTS] = {AWS_LS_COMMON_GENERAL, AWS_LS_COMMON_TASK_SCHEDULER, AWS_LS_COMMON_THREAD, AWS_LS_COMMON_MEMTRACE,
+                                                 AWS_LS_COMMON_XML_PARSER, AWS_LS_COMMON_IO, AWS_LS_COMMON_BUS, AWS_LS_COMMON_TEST, AWS_LS_COMMON_JSON_PARSER,
+                                                 AWS_LS_COMMON_CBOR};
+static const size_t OWN_NAME_LEN[N_OWN_SUBJECTS] = {1, 30, 60, 78, 79, 80, 87, 88, 89, 92, 93, 128, 200, 300};
+static char s_own_names[N_OWN_SUBJECTS][304];
+static struct aws_log_subject_info s_own_infos[N_OWN_SUBJECTS];
+static struct aws_log_subject_info_list s_own_list = {s_own_infos, N_OWN_SUBJECTS};
+
+static void register_own_subjects(void) {
+    for (int i = 0; i < N_OWN_SUBJECTS; ++i) {
+        size_t l = OWN_NAME_LEN[i];
+        for (size_t k = 0; k < l; ++k) {
+            s_own_names[i][k] = (char)("verif-subject-name_0123456789abcdef"[k % 35]);
+        }
+        s_own_names[i][0] = (char)('A' + i);
+        s_own_names[i][l] = 0;
+        s_own_infos[i].subject_id = AWS_LOG_SUBJECT_BEGIN_RANGE(OWN_PACKAGE_ID) + (aws_log_subject_t)i;
+        s_own_infos[i].subject_name = s_own_names[i];
+        s_own_infos[i].subject_description = "subject registered by the C14 harness";
+        SUBJECTS[N_LIB_SUBJECTS + i] = s_own_infos[i].subject_id;
+    }
+    aws_register_log_subject_info_list(&s_own_list);
+}
 
 struct msg {
     int level;   /* AWS_LL_* */
@@ -389,6 +414,9 @@ static void thr_case(void) {
             struct msg *m = &s->msgs[n];
             m->level = (int)mon_range(r, AWS_LL_FATAL, AWS_LL_TRACE);
             m->subject = (int)mon_below(r, N_SUBJECTS);
+            if (m->subject >= N_LIB_SUBJECTS && OWN_NAME_LEN[m->subject - N_LIB_SUBJECTS] >= 79) {
+                mon_flag(F_LONG_SUBJECT);
+            }
             m->shape = (int)mon_below(r, 4);
             unsigned lp = (unsigned)mon_below(r, 100);
             m->plen = lp < 8 ? 0 : lp < 80 ? (size_t)mon_below(r, 200) : lp < 95 ? (size_t)mon_below(r, 3000) : (size_t)mon_below(r, 20001);
@@ -661,7 +689,9 @@ static void trunc_case(uint64_t case_idx) {
         lens[i] = pick < 6 ? 8000 + (size_t)((case_idx * NCALLS + (uint64_t)i) % 401) : pick < 8 ? (size_t)mon_below(r, 201) : 7900 + (size_t)mon_below(r, 2000);
         payloads[i] = make_payload(0, i, lens[i], case_idx);
         mon_fp(lens[i]);
-        AWS_LOGF_INFO(AWS_LS_COMMON_GENERAL, "%s", payloads[i]);
+        aws_log_subject_t subj = SUBJECTS[mon_below(r, N_SUBJECTS)];
+        mon_fp(subj);
+        AWS_LOGF_INFO(subj, "%s", payloads[i]);
     }
     aws_logger_set(NULL);
     aws_logger_clean_up(&logger);
@@ -746,7 +776,7 @@ static void trunc_case(uint64_t case_idx) {
         struct aws_logging_standard_formatting_data big = {.log_line_buffer = full,
                                                            .total_length = sizeof(full),
                                                            .level = AWS_LL_WARN,
-                                                           .subject_name = "subj",
+                                                           .subject_name = (rep & 1) ? "subj" : s_own_names[mon_below(r, N_OWN_SUBJECTS)],
                                                            .format = "%s",
                                                            .date_format = AWS_DATE_FORMAT_ISO_8601,
                                                            .allocator = alloc,
@@ -808,10 +838,12 @@ static void trunc_case(uint64_t case_idx) {
 int main(int argc, char **argv) {
     mon_init(argc, argv, "C14");
     aws_common_library_init(aws_default_allocator());
+    register_own_subjects();
     s_arena = malloc(ARENA_SIZE);
     static const char *names[] = {"background_channel", "foreground_channel", "several_senders", "message_over_8000_bytes", "filtered_calls", "level_changed_at_barrier",
                                   "empty_message", "clean_up_with_lines_still_queued", "noalloc_line_truncated", "direct_line_truncated", "line_fills_buffer_exactly",
-                                  "level_none", "clean_up_with_more_than_64_lines_queued", "writer_reported_errors"};
+                                  "level_none", "clean_up_with_more_than_64_lines_queued", "writer_reported_errors",
+                                  "subject_name_of_79_to_300_characters"};
     for (int i = 0; i < (int)(sizeof(names) / sizeof(names[0])); ++i) {
         mon_flag_name(i, names[i]);
     }
